@@ -23,7 +23,17 @@
 //   a_label <s:..|none> | a_unit <s:..|none> | a_data <d:>*     DataArray::label/unit, setData(std::vector<double>)
 //   reopen ro|rw
 //   observe                                        complete dimension state through every getter
-// setters on dimension <i> go through getDimension(i).as<Kind>Dimension()
+//   s_at <i> <k> | r_at <i> <k>                    SampledDimension::operator[](k) / RangeDimension::operator[](k)
+//   dims_f <S|T|R|F>                               DataArray::dimensions(filter: dimensionType() == kind)
+//   range_of_array                                 RangeDimension(const DataArray&): rank check, yields a none handle
+//   f_ticks <i> <col|-> <resize 0|1> <vsize> <offset>   DataFrameDimension::ticks<T>(vector<T>(vsize), col, resize, offset),
+//                                                  T = the column's type
+// Every frame cell is filled at creation: numeric r*10+c (Double: +0.5), String "r<r>c<c>", Bool (r+c) odd.
+// A line may start with via<k>: the SAME request, the dimension handle obtained by another public route
+//   via1  X x; x = getDimension(i)                         X::operator=(const Dimension&)
+//   via2  dimensions(filter: index() == i) -> as<X>()      DataArray::dimensions(filter)
+//   via3  Dimension(const X&), Dimension::operator=(const X&), X::operator=(const X&) round trip
+//   (no prefix) getDimension(i).as<X>Dimension()
 #include "common.hpp"
 #include <memory>
 
@@ -114,6 +124,69 @@ static nix::DataFrame frame_arg(const std::string &t) {
     return S.frames[k];
 }
 
+static int ROUTE = 0;
+
+static nix::Dimension fetch_dim(nix::ndsize_t i) {
+    if (ROUTE == 2) {
+        std::vector<nix::Dimension> v = S.arr.dimensions([i](const nix::Dimension &d) { return d.index() == i; });
+        return v.empty() ? nix::Dimension() : v[0];
+    }
+    return S.arr.getDimension(i);
+}
+
+// the same descriptor as an X, by the chosen route
+template<typename X> static X as_kind(const nix::Dimension &d);
+template<> nix::SampledDimension as_kind<nix::SampledDimension>(const nix::Dimension &d) { return d.asSampledDimension(); }
+template<> nix::SetDimension as_kind<nix::SetDimension>(const nix::Dimension &d) { return d.asSetDimension(); }
+template<> nix::RangeDimension as_kind<nix::RangeDimension>(const nix::Dimension &d) { return d.asRangeDimension(); }
+template<> nix::DataFrameDimension as_kind<nix::DataFrameDimension>(const nix::Dimension &d) { return d.asDataFrameDimension(); }
+
+template<typename X> static X routed(const nix::Dimension &d) {
+    if (ROUTE == 1) { X x; x = d; return x; }                       // X::operator=(const Dimension&)
+    if (ROUTE == 3) {
+        X x = as_kind<X>(d);
+        nix::Dimension g(x);                                        // Dimension(const X&)
+        nix::Dimension h;
+        h = x;                                                      // Dimension::operator=(const X&)
+        if (g.index() != h.index() || g.dimensionType() != h.dimensionType()) throw std::logic_error("conversion changed the descriptor");
+        X y;
+        y = as_kind<X>(h);                                          // X::operator=(const X&)
+        return y;
+    }
+    return as_kind<X>(d);
+}
+
+template<typename T> static std::string enc_tick(const T &v) { return std::to_string(v); }
+template<> std::string enc_tick<double>(const double &v) { return enc_dbl(v); }
+template<> std::string enc_tick<std::string>(const std::string &v) { return enc_str(v); }
+
+template<typename T> static std::string frame_ticks(nix::DataFrameDimension &fd, boost::optional<unsigned> col, bool resize, size_t vsize, nix::ndsize_t off) {
+    std::vector<T> v(vsize);
+    fd.ticks(v, col, resize, off);
+    std::string o = "[";
+    for (const T &x : v) o += " " + enc_tick<T>(x);
+    return o + " ]";
+}
+
+static void fill_frame(nix::DataFrame &df) {
+    std::vector<nix::Column> cols = df.columns();
+    nix::ndsize_t rows = df.rows();
+    if (rows == 0) return;
+    for (size_t c = 0; c < cols.size(); c++) {
+        unsigned cu = static_cast<unsigned>(c);
+        switch (cols[c].dtype) {
+        case DataType::Double: { std::vector<double> v; for (nix::ndsize_t r = 0; r < rows; r++) v.push_back(r * 10 + c + 0.5); df.writeColumn(cu, v); break; }
+        case DataType::Int32: { std::vector<int32_t> v; for (nix::ndsize_t r = 0; r < rows; r++) v.push_back(static_cast<int32_t>(r * 10 + c)); df.writeColumn(cu, v); break; }
+        case DataType::UInt32: { std::vector<uint32_t> v; for (nix::ndsize_t r = 0; r < rows; r++) v.push_back(static_cast<uint32_t>(r * 10 + c)); df.writeColumn(cu, v); break; }
+        case DataType::Int64: { std::vector<int64_t> v; for (nix::ndsize_t r = 0; r < rows; r++) v.push_back(static_cast<int64_t>(r * 10 + c)); df.writeColumn(cu, v); break; }
+        case DataType::UInt64: { std::vector<uint64_t> v; for (nix::ndsize_t r = 0; r < rows; r++) v.push_back(static_cast<uint64_t>(r * 10 + c)); df.writeColumn(cu, v); break; }
+        case DataType::String: { std::vector<std::string> v; for (nix::ndsize_t r = 0; r < rows; r++) v.push_back("r" + std::to_string(r) + "c" + std::to_string(c)); df.writeColumn(cu, v); break; }
+        case DataType::Bool: { for (nix::ndsize_t r = 0; r < rows; r++) df.writeCells(r, {nix::Cell(cu, nix::Variant(static_cast<bool>((r + c) % 2 == 1)))}); break; }
+        default: break;
+        }
+    }
+}
+
 static char kind_letter(nix::DimensionType t) {
     switch (t) {
     case nix::DimensionType::Sample: return 'S';
@@ -179,7 +252,18 @@ static std::vector<double> dbls(const std::vector<std::string> &t, size_t from) 
     return v;
 }
 
-static std::string handle(const std::vector<std::string> &t) {
+static std::string handle1(const std::vector<std::string> &t);
+
+static std::string handle(const std::vector<std::string> &t0) {
+    ROUTE = 0;
+    if (t0.at(0).compare(0, 3, "via") == 0 && t0.at(0).size() == 4) {
+        ROUTE = t0.at(0)[3] - '0';
+        return handle1(std::vector<std::string>(t0.begin() + 1, t0.end()));
+    }
+    return handle1(t0);
+}
+
+static std::string handle1(const std::vector<std::string> &t) {
     const std::string &c = t.at(0);
     std::ostringstream o;
     if (c == "new") {
@@ -208,6 +292,7 @@ static std::string handle(const std::vector<std::string> &t) {
             }
             nix::DataFrame df = blk.createDataFrame(name, "t", cols);
             df.rows(rows);
+            fill_frame(df);
             return name;
         };
         for (size_t f = 0; f < nfr; f++) S.fnames.push_back(make_frame(S.block));
@@ -244,6 +329,7 @@ static std::string handle(const std::vector<std::string> &t) {
         S.block.deleteDataFrame(S.fnames[k]);
         nix::DataFrame nf = S.block.createDataFrame(S.fnames[k], "t", cols);
         nf.rows(rows);
+        fill_frame(nf);
         S.frames[k] = nf;
         S.foreign.push_back(old); S.foreign_names.push_back("");
         return "-";
@@ -312,18 +398,53 @@ static std::string handle(const std::vector<std::string> &t) {
     if (c == "a_unit") { if (t.at(1) == "none") S.arr.unit(nix::none); else S.arr.unit(dec_str(t.at(1))); return "-"; }
     if (c == "a_data") { std::vector<double> v = dbls(t, 1); S.arr.setData(v); return "-"; }
 
+    if (c == "dims_f") {
+        nix::DimensionType want = t.at(1) == "S" ? nix::DimensionType::Sample : t.at(1) == "T" ? nix::DimensionType::Set
+                                : t.at(1) == "R" ? nix::DimensionType::Range : nix::DimensionType::DataFrame;
+        std::vector<nix::Dimension> ds = S.arr.dimensions([want](const nix::Dimension &d) { return d.dimensionType() == want; });
+        o << "[";
+        for (nix::Dimension &d : ds) o << " " << d.index() << kind_letter(d.dimensionType());
+        o << " ]";
+        return o.str();
+    }
+    if (c == "range_of_array") {
+        nix::RangeDimension rd(S.arr);
+        return rd ? "some" : "none";
+    }
+
     // ---- everything else addresses dimension <i> ----
     nix::ndsize_t i = dec_u64(t.at(1));
-    nix::Dimension d = S.arr.getDimension(i);
+    nix::Dimension d = fetch_dim(i);
+    if (c == "f_ticks") {
+        nix::DataFrameDimension fd = routed<nix::DataFrameDimension>(d);
+        boost::optional<unsigned> col;
+        if (t.at(2) != "-") col = static_cast<unsigned>(dec_u64(t.at(2)));
+        bool resize = t.at(3) == "1";
+        size_t vsize = static_cast<size_t>(dec_u64(t.at(4)));
+        nix::ndsize_t off = dec_u64(t.at(5));
+        DataType ty = DataType::Double;
+        try { ty = fd.columnDataType(col); } catch (...) {}
+        switch (ty) {
+        case DataType::Int32: return frame_ticks<int32_t>(fd, col, resize, vsize, off);
+        case DataType::UInt32: return frame_ticks<uint32_t>(fd, col, resize, vsize, off);
+        case DataType::Int64: return frame_ticks<int64_t>(fd, col, resize, vsize, off);
+        case DataType::UInt64: return frame_ticks<uint64_t>(fd, col, resize, vsize, off);
+        case DataType::String: return frame_ticks<std::string>(fd, col, resize, vsize, off);
+        case DataType::Bool: return frame_ticks<int32_t>(fd, col, resize, vsize, off);
+        default: return frame_ticks<double>(fd, col, resize, vsize, off);
+        }
+    }
+    if (c == "s_at") { nix::SampledDimension sd = routed<nix::SampledDimension>(d); return enc_dbl(sd[dec_u64(t.at(2))]); }
+    if (c == "r_at") { nix::RangeDimension rd = routed<nix::RangeDimension>(d); return enc_dbl(rd[dec_u64(t.at(2))]); }
     if (c[0] == 's') {
-        nix::SampledDimension sd = d.asSampledDimension();
+        nix::SampledDimension sd = routed<nix::SampledDimension>(d);
         if (c == "s_label") { if (t.at(2) == "none") sd.label(nix::none); else sd.label(dec_str(t.at(2))); return "-"; }
         if (c == "s_unit") { if (t.at(2) == "none") sd.unit(nix::none); else sd.unit(dec_str(t.at(2))); return "-"; }
         if (c == "s_interval") { sd.samplingInterval(dec_dbl(t.at(2))); return "-"; }
         if (c == "s_offset") { if (t.at(2) == "none") sd.offset(nix::none); else sd.offset(dec_dbl(t.at(2))); return "-"; }
     }
     if (c[0] == 't') {
-        nix::SetDimension td = d.asSetDimension();
+        nix::SetDimension td = routed<nix::SetDimension>(d);
         if (c == "t_label") { if (t.at(2) == "none") td.label(nix::none); else td.label(dec_str(t.at(2))); return "-"; }
         if (c == "t_labels") {
             if (t.at(2) == "none") { td.labels(nix::none); return "-"; }
@@ -335,7 +456,7 @@ static std::string handle(const std::vector<std::string> &t) {
         }
     }
     if (c[0] == 'r') {
-        nix::RangeDimension rd = d.asRangeDimension();
+        nix::RangeDimension rd = routed<nix::RangeDimension>(d);
         if (c == "r_label") { if (t.at(2) == "none") rd.label(nix::none); else rd.label(dec_str(t.at(2))); return "-"; }
         if (c == "r_unit") { if (t.at(2) == "none") rd.unit(nix::none); else rd.unit(dec_str(t.at(2))); return "-"; }
         if (c == "r_ticks") { rd.ticks(dbls(t, 2)); return "-"; }
@@ -344,7 +465,7 @@ static std::string handle(const std::vector<std::string> &t) {
         if (c == "r_axis") return list_d(rd.axis(dec_u64(t.at(2)), dec_u64(t.at(3))));
     }
     if (c == "f_q") {
-        nix::DataFrameDimension fd = d.asDataFrameDimension();
+        nix::DataFrameDimension fd = routed<nix::DataFrameDimension>(d);
         boost::optional<unsigned> col;
         if (t.at(3) != "-") col = static_cast<unsigned>(dec_u64(t.at(3)));
         if (t.at(2) == "label") return enc_str(fd.label(col));
